@@ -1331,7 +1331,10 @@ def call(fr, n: ast.Call):
     kw = {}
     for k in n.keywords:
         if k.arg is None:
-            kw.update(fr.ev(k.value))
+            kv_ = fr.ev(k.value)
+            if not isinstance(kv_, dict):
+                raise Abort(f"**{type(kv_).__name__} in a call: the keyword arguments are not a dictionary the analysis knows")
+            kw.update(kv_)
         else:
             kw[k.arg] = fr.ev(k.value)
     return apply(fr, f, args, kw, n)
